@@ -1,6 +1,7 @@
 import Cinco.Drv.FieldWire
 import Cinco.Config.Ops
 import Cinco.Config.Env
+import Cinco.Config.Paths
 /-
   Wire format of schemas, configurations and operation histories (driver side only).
 -/
@@ -97,6 +98,17 @@ def envNameCmd (j : Json) : R Json := do
   | some n => pure (Json.str n)
   | none => pure Json.null
 
+def sfieldTag : SField → String
+  | .leaf _ _ => "leaf" | .sub _ => "sub" | .ctype _ _ => "ctype" | .cfgList _ _ _ _ => "cfglist" | .virtual _ _ => "virtual" | .method => "method"
+
+/-- `paths`: enumeration and generated parser of a schema -/
+def pathsCmd (j : Json) : R Json := do
+  let s ← schemaOfJson (← field j "schema")
+  let all := (allFields s).map (fun (p, f) => Json.arr #[Json.str p, Json.str (sfieldTag f)])
+  let opts := (genParser s).map (fun o => Json.mkObj [("flag", Json.str o.flag), ("dest", Json.str o.dest),
+    ("const", match o.const with | some b => Json.bool b | none => Json.null)])
+  pure (Json.mkObj [("fields", Json.arr all.toArray), ("options", Json.arr opts.toArray)])
+
 def fuelDefault : Nat := 24
 
 /-- find the schema of the configuration reached by a dotted path -/
@@ -164,6 +176,15 @@ def cfgOp (W : World) (s : Schema) (c : Cfg) (n : Nat) (j : Json) : R (Json × C
       match fuelDefault with
       | 0 => throw "fuel"
       | f + 1 => pure (Json.mkObj [("errors", Json.arr ((validateCollect W f s "" c).map cerrToJson).toArray)], c, n)
+  | "cmdline" => do
+      -- `given`: the (dest, value) pairs the command line supplied, in order; the namespace is computed by the model
+      let given ← (← fArr j "given").mapM (fun p => match p with
+        | .arr #[.str d, v] => do pure (d, some (← valOfJson v))
+        | _ => throw "bad given entry")
+      let ignore ← (← fArr j "ignore").mapM (fun x => match x with | .str s => pure s | _ => throw "bad ignore")
+      let ns := parseArgs (genParser s) given
+      let o := cmdlineOverride W fuelDefault s c ns ignore n
+      pure (outJson o, o.cfg, o.next)
   | "reset" => do
       let o := resetValue W fuelDefault s c (← fChars j "key") n
       pure (outJson o, o.cfg, o.next)
